@@ -9,7 +9,10 @@ from . import C01
 from . import inst_common as ic
 
 GEN_SECTIONS = ["Tables", "Regexes", "Unicode"]
+# leaf functions whose ASTs are dumped from /repo and proved equal to the hand model (lean/Chartparse/Tie/Phrase.lean)
+LEAVES = {'Phrase': ['tickadd', 'after', 'during']}
 TRUSTED = [
+    "leaf ties: Py.evalBody (embedded Python subset, validated against CPython and the real functions every run) + the AST dump",
     "Lean 4 kernel; axioms ⊆ {propext, Quot.sound}",
     "hand model of _compute_star_power_data with the carried cursor (incl. the loop variable that leaks out of the `for`)",
     "tied by differential execution of the real track builder",
